@@ -26,7 +26,9 @@ struct Sol : public squids::SQuIDS {
   Sol& operator=(Sol&& o) { squids::SQuIDS::operator=(std::move(o)); d = o.d; return *this; }
   SU_vector H0(double x, unsigned ir) const override { SU_vector h(d); for (int k = 1; k < d; k++) h[d * k + k] = 0.1 * k + 0.01 * x + ir; return h; }
   bool bad_term = false;  // HI of a wrong dimension: the library's own 'non-matching dimensions' exception is raised in the middle of an integration
-  SU_vector HI(unsigned ix, unsigned, double t) const override { int dd = bad_term ? (d == 2 ? 3 : 2) : d; SU_vector h(dd); for (int k = 1; k < dd * dd; k++) h[k] = 0.01 * k + 0.001 * ix + 0.002 * t; return h; }
+  // (bad_after: the term is good for that many calls first, so the exception is raised from a later Runge-Kutta stage or a later node)
+  int bad_after = 0; mutable int hi_calls = 0;
+  SU_vector HI(unsigned ix, unsigned, double t) const override { int dd = bad_term && hi_calls++ >= bad_after ? (d == 2 ? 3 : 2) : d; SU_vector h(dd); for (int k = 1; k < dd * dd; k++) h[k] = 0.01 * k + 0.001 * ix + 0.002 * t; return h; }
   // the in-step view of the state is public to derived classes: read it whenever the library says it is current
   void PreDerive(double) override { volatile double x = 0; for (unsigned ix = 0; ix < nx; ix++) { for (unsigned ir = 0; ir < nrhos; ir++) x = x + estate[ix].rho[ir][0]; if (nscalars) x = x + estate[ix].scalar[0]; } (void)x; }
   SU_vector GammaRho(unsigned, unsigned, double) const override { SU_vector g(d); g[0] = 0.05; return g; }
@@ -273,6 +275,20 @@ void run_case(ByteSource& s, CaseInfo& ci) {
           sol[k]->bad_term = term_throws;
           if (force_fail) { sol[k]->Set_rel_error(1e-13); sol[k]->Set_abs_error(1e-13); sol[k]->Set_h_min(0.5); sol[k]->Set_h(0.5); }
           struct Restore { Sol* p; bool on; ~Restore() { if (on) { p->Set_h_min(1e-300); p->Set_h(1e-3); } } } restore{sol[k].get(), force_fail};
+          if (term_throws) {
+            static const int after[] = {0, 1, 2, 3, 5, 9, 17, 40};
+            sol[k]->bad_after = after[s.tail_at(47) % 8]; sol[k]->hi_calls = 0;
+            ci.label(sol[k]->bad_after ? "term-throws-at-a-later-call" : "term-throws-at-first-call");
+            try { sol[k]->Evolve(0.05); }
+            catch (const std::exception&) {
+              // the caller keeps the object: with the numerics off the next Evolve only advances the clock and hands the in-step view to PreDerive
+              sol[k]->bad_term = false; sol[k]->bad_after = 0;
+              sol[k]->Set_CoherentRhoTerms(false); sol[k]->Set_NonCoherentRhoTerms(false); sol[k]->Set_OtherRhoTerms(false); sol[k]->Set_GammaScalarTerms(false); sol[k]->Set_OtherScalarTerms(false);
+              sol[k]->Evolve(0.01);
+              throw;
+            }
+            break;
+          }
           sol[k]->Evolve(s.flag() && !force_fail && !term_throws ? 0.0 : 0.05); break;
         }
         case 42: {  // expectation values, inside and outside the grid
@@ -397,5 +413,14 @@ void regressions() {
     bool threw = false; try { s3.Evolve(0.05); } catch (const std::exception&) { threw = true; }
     CHECK(threw, "C15|throwing-term|no-exception", "regression");
     s3.bad_term = false; s3.Evolve(0.05);
+  }
+  // (seed C10-9) a term that throws from a later stage, whose input is a driver-internal array: the view must alias the stored state again
+  for (int after : {1, 2, 3, 5, 9}) {
+    Sol s5(2, 3, 1, 0, 0.0); s5.Set_xrange(1.0, 2.0, "linear"); s5.fill();
+    s5.Set_CoherentRhoTerms(true); s5.Set_rel_error(1e-6); s5.Set_abs_error(1e-6); s5.Set_h(1e-3);
+    s5.bad_term = true; s5.bad_after = after;
+    try { s5.Evolve(0.05); } catch (const std::exception&) {}
+    s5.bad_term = false; s5.Set_CoherentRhoTerms(false);
+    s5.Evolve(0.1);
   }
 }
